@@ -86,6 +86,7 @@ type Obl struct {
 	Trace      []TraceEv
 	Canary     bool // must NOT be provable
 	Seq        int
+	Cross      string // status reported by the cross-check solver (thorough tier)
 	ParamTerms map[string][]*Term
 }
 
